@@ -1,5 +1,6 @@
 (* Property C09 — "Request frames on the wire say exactly what the caller asked for".
-   Statements only.  Every theorem is closed by [exact] of a lemma from Proofs/Request_proofs.v;
+   Statements only.  Every theorem is closed by [exact] of a lemma from Proofs/Request_proofs.v
+   (deepening round 4: Proofs/C09_round4.v);
    the statements are pinned again in /verif/pins/C09.v.
 
    encode_request cd c tr r  = the model of SerializedValues::from_closure + SerializedRequest::make
@@ -10,7 +11,7 @@
                                (decompress (compress b) = b) is an explicit premise where used.
    Since /repo a9f519c ("fix: refuse a request whose body does not fit in the frame's 32-bit
    length field") the model has the two `u32::try_from` checks, so no size premise is needed. *)
-From SV Require Import Base.Prelude Base.Bytes Model.Request Proofs.Request_proofs.
+From SV Require Import Base.Prelude Base.Bytes Model.Request Proofs.Request_proofs Proofs.C09_round4.
 Open Scope N_scope.
 
 (* Whatever the code emits without error is a valid v4 frame that the protocol parser reads back
@@ -217,6 +218,80 @@ Theorem C09_parser_texts_rfc : forall cd alg mid f h r,
   parse_frame cd alg mid f = Ok (h, r) -> req_texts_rfc r.
 Proof. exact parser_texts_rfc. Qed.
 
+(* ---- Deepening round 4 (proof only; lemmas in Proofs/C09_round4.v) -------------------------------- *)
+(* The acceptance set, exactly.  Whatever the compression, an accepted request has nothing oversize
+   and as many value lists as statements (and, Snappy apart, a body below 2^32); without compression
+   the converse holds too: [oversize], [batch_counts_match], [body_too_long] -- the three predicates
+   the driver uses to judge a refusal -- decide acceptance. *)
+Theorem C09_accepted_only : forall cd c tr r f,
+  encode_request cd c tr r = Ok f ->
+  oversize r = false /\ batch_counts_match r = true /\ (c <> Some Snappy -> body_too_long r = false).
+Proof. exact accepted_only. Qed.
+Theorem C09_accepted_iff : forall cd tr r,
+  (exists f, encode_request cd None tr r = Ok f) <->
+  oversize r = false /\ batch_counts_match r = true /\ body_too_long r = false.
+Proof. exact accepted_iff. Qed.
+Theorem C09_batch_counts_match_false : forall r,
+  batch_counts_match r = false <->
+  exists bt stmts vals c sc ts, r = Batch bt stmts vals c sc ts /\ List.length stmts <> List.length vals.
+Proof. exact batch_counts_match_false. Qed.
+
+(* C09_frame_says_sound is an equivalence: the driver's predicate holds exactly when the protocol
+   parser reads the asked request with the expected header out of the bytes *)
+Theorem C09_frame_says_iff : forall cd c tr st r f,
+  frame_says cd c tr st r f = true <->
+  exists h, parse_frame cd c (uses_mid r) f = Ok (h, r) /\ h_version h = 4 /\ h_opcode h = opcode r /\
+            h_length h + 9 = blen f /\ h_flags h = frame_flags (is_some c) tr /\ h_stream h = st.
+Proof. exact frame_says_iff. Qed.
+
+(* set_stream on the bytes: version / flags, opcode, length field, body and the size are untouched,
+   bytes 2..3 are the big-endian i16; and after ANY sequence of set_stream calls (the serialised
+   request is re-used across attempts) the frame is the one the last call alone would give, which
+   the protocol parser reads as the same request with that stream id *)
+Theorem C09_set_stream_bytes : forall s f, 4 <= blen f ->
+  firstn 2 (set_stream s f) = firstn 2 f /\
+  firstn 2 (skipn 2 (set_stream s f)) = sbe 2 s /\
+  skipn 4 (set_stream s f) = skipn 4 f /\
+  blen (set_stream s f) = blen f.
+Proof. exact set_stream_bytes. Qed.
+Theorem C09_set_stream_last : forall ss s f, 4 <= blen f ->
+  fold_left (fun g x => set_stream x g) (ss ++ [s]) f = set_stream s f.
+Proof. exact set_stream_last. Qed.
+Theorem C09_set_stream_seq : forall cd alg mid f h r ss s,
+  (- 2 ^ 15 <= s < 2 ^ 15)%Z -> 4 <= blen f ->
+  parse_frame cd alg mid f = Ok (h, r) ->
+  parse_frame cd alg mid (fold_left (fun g x => set_stream x g) (ss ++ [s]) f) = Ok (with_stream s h, r).
+Proof. exact set_stream_seq_parse. Qed.
+
+(* The flag bytes (extracted; the census compares them with the crate's FLAG_* constants): one bit
+   per option used, independent of each other ([N.lor] = sum), no other bit. *)
+Theorem C09_qp_flags_bits : forall v sk pg ps sc ts,
+  qp_flags v sk pg ps sc ts = b2n v + 2 * b2n sk + 4 * b2n pg + 8 * b2n ps + 16 * b2n sc + 32 * b2n ts /\
+  N.testbit (qp_flags v sk pg ps sc ts) 0 = v /\ N.testbit (qp_flags v sk pg ps sc ts) 1 = sk /\
+  N.testbit (qp_flags v sk pg ps sc ts) 2 = pg /\ N.testbit (qp_flags v sk pg ps sc ts) 3 = ps /\
+  N.testbit (qp_flags v sk pg ps sc ts) 4 = sc /\ N.testbit (qp_flags v sk pg ps sc ts) 5 = ts.
+Proof. exact qp_flags_bits. Qed.
+Theorem C09_batch_flags_bits : forall sc ts,
+  batch_flags sc ts = 16 * b2n sc + 32 * b2n ts /\
+  N.testbit (batch_flags sc ts) 4 = sc /\ N.testbit (batch_flags sc ts) 5 = ts.
+Proof. exact batch_flags_bits. Qed.
+Theorem C09_frame_flags_bits : forall c tr,
+  frame_flags c tr = b2n c + 2 * b2n tr /\
+  N.testbit (frame_flags c tr) 0 = c /\ N.testbit (frame_flags c tr) 1 = tr.
+Proof. exact frame_flags_bits. Qed.
+(* The code tables (extracted; census): injective, in range, and the specification parser's tables
+   are their inverses. *)
+Theorem C09_code_tables :
+  (forall a b, cons_code a = cons_code b -> a = b) /\ (forall a, cons_code a <= 10) /\
+  (forall a b, serial_code a = serial_code b -> a = b) /\
+  (forall a, serial_code a = 8 \/ serial_code a = 9) /\
+  (forall a b, batch_type_code a = batch_type_code b -> a = b) /\ (forall a, batch_type_code a <= 2) /\
+  (forall a b, event_name a = event_name b -> a = b) /\
+  (forall a, p_event (event_name a) = Some a) /\
+  (forall a rest, p_consistency (be 2 (cons_code a) ++ rest) = Ok (a, rest)) /\
+  (forall a rest, p_serial (be 2 (serial_code a) ++ rest) = Ok (a, rest)).
+Proof. exact code_tables. Qed.
+
 (* ---- non-vacuity: concrete requests meeting the hypotheses, with non-trivial outputs ---- *)
 Definition ex_codec : codec :=
   mkCodec (fun b => b) (fun b _ => Some b) (fun b => Some b) (fun b => Some b).
@@ -404,6 +479,40 @@ Example C09_anchor_rows :
   bytes_ltb [99] [99; 100] = true /\ bytes_ltb [99; 100] [99] = false /\ bytes_ltb [98; 255] [99] = true.
 Proof. repeat split; vm_compute; reflexivity. Qed.
 
+(* non-vacuity / anchors of deepening round 4 *)
+Example C09_ex_round4 :
+  (* C09_accepted_iff: a request meeting the right-hand side, and three outside it *)
+  (oversize ex_batch = false /\ batch_counts_match ex_batch = true /\ body_too_long ex_batch = false /\
+   is_ok (encode_request ex_codec None true ex_batch) = true) /\
+  batch_counts_match (Batch Logged [SPrepared [1]] [[CNull]; []; []] One None None) = false /\
+  batch_counts_match ex_query = true /\
+  (* C09_frame_says_iff on the golden frame: accepted with the stream id it carries, not with another,
+     not for another request *)
+  (forall f, encode_request ex_codec None true ex_query = Ok f ->
+     frame_says ex_codec None true 0 ex_query f = true /\ frame_says ex_codec None true 1 ex_query f = false /\
+     frame_says ex_codec None true 0 ex_execute f = false /\
+     frame_says ex_codec None true 770 ex_query (set_stream 770 f) = true) /\
+  (* C09_set_stream_bytes / _last: three calls on the OPTIONS frame *)
+  (forall f, encode_request ex_codec None false Options = Ok f -> 4 <= blen f /\
+     fold_left (fun g x => set_stream x g) ([5; -1] ++ [300])%Z f = [4; 0; 1; 44; 5; 0; 0; 0; 0] /\
+     sbe 2 (-2) = [255; 254]) /\
+  (* flag bytes *)
+  qp_flags true true false true false true = 43 /\ qp_flags false false false false false false = 0 /\
+  qp_flags true true true true true true = 63 /\ batch_flags true false = 16 /\ batch_flags true true = 48 /\
+  frame_flags true true = 3 /\
+  (* code tables: the parser refuses the codes next to the tables *)
+  p_consistency [0; 11] = Err PBadConsistency /\ p_serial [0; 7] = Err PBadSerialConsistency /\
+  p_serial [0; 10] = Err PBadSerialConsistency /\ p_event (event_name EvStatus ++ [68]) = None /\
+  p_consistency [0; 6; 99] = Ok (LocalQuorum, [99]).
+Proof.
+  split; [repeat split; vm_compute; reflexivity|].
+  split; [vm_compute; reflexivity|]. split; [vm_compute; reflexivity|].
+  split. { intros f H. vm_compute in H. injection H as <-. repeat split; vm_compute; reflexivity. }
+  split. { intros f H. vm_compute in H. injection H as <-.
+           repeat split; vm_compute; first [reflexivity | discriminate]. }
+  repeat split; vm_compute; reflexivity.
+Qed.
+
 Print Assumptions C09_parse_encode.
 Print Assumptions C09_plain_body.
 Print Assumptions C09_compressed.
@@ -433,3 +542,14 @@ Print Assumptions C09_parse_encode_rfc.
 Print Assumptions C09_parser_texts_rfc.
 Print Assumptions C09_values_are_C01.
 Print Assumptions C09_mini_ser_is_C01.
+Print Assumptions C09_accepted_only.
+Print Assumptions C09_accepted_iff.
+Print Assumptions C09_batch_counts_match_false.
+Print Assumptions C09_frame_says_iff.
+Print Assumptions C09_set_stream_bytes.
+Print Assumptions C09_set_stream_last.
+Print Assumptions C09_set_stream_seq.
+Print Assumptions C09_qp_flags_bits.
+Print Assumptions C09_batch_flags_bits.
+Print Assumptions C09_frame_flags_bits.
+Print Assumptions C09_code_tables.
